@@ -828,7 +828,17 @@ func genCase(h *rt.H, w *world) []string {
 	if h.Intn(3) == 0 {
 		motifAt = h.Intn(n)
 	}
+	// motif (one case in six): a wanted chain WITHOUT rules is programmed, somebody deletes it, Felix re-reads the table
+	emptyAt := -1
+	if h.Intn(6) == 0 {
+		emptyAt = h.Intn(n)
+	}
 	for i := 0; i < n; i++ {
+		if i == emptyAt && i != motifAt {
+			c := rt.Pick(h, caliChains)
+			ops = append(ops, fmt.Sprintf("chain %s 1 - -", c), "apply", "kdelchain "+c, "invalidate", "apply")
+			continue
+		}
 		if i == motifAt {
 			parent := rt.Pick(h, caliChains[:3])
 			child := rt.Pick(h, targetsFrom(parent))
